@@ -9,10 +9,11 @@ therefore a function of the seed and is dense even for tiny inputs - a switch
 between two consecutive statements of a helper, which free-running threads
 hit once in thousands of runs, is routine here.
 
-Robustness: a worker that waits for the baton longer than ``FORCE_S`` takes
-it by force (library code that blocks on a lock held by a descheduled thread
-would otherwise dead-lock the schedule); forced hand-overs are counted and
-make the run non-deterministic but never wrong. What is compared is only the
+Robustness: a worker that waits for the baton longer than ``FORCE_S`` carries
+on beside the holder (library code that blocks on a lock held by a
+descheduled thread would otherwise dead-lock the schedule) and steps back in
+line at its next scheduling point once the baton is elsewhere; forced
+hand-overs are counted and make the run non-deterministic but never wrong. What is compared is only the
 *result* of each worker against the result of the same work done alone.
 """
 import os
@@ -21,9 +22,9 @@ import threading
 
 from mon import env
 
-FORCE_S = 0.25
+FORCE_S = 0.05
 _TOOL = 3
-_state = {'on': False, 'root': None, 'active': None}
+_state = {'on': False, 'root': None, 'active': None, 'extra': ()}
 
 
 class Sched(object):
@@ -33,14 +34,33 @@ class Sched(object):
         self.sems = []
         self.alive = []
         self.idx = {}
+        self.holder = None
         self.switches = 0
         self.forced = 0
         self.points = 0
 
-    # -- called from worker threads, baton holder only --------------------
+    def _wait(self, i):
+        """Wait for the baton; take it by force after FORCE_S (the holder
+        may be blocked on a lock this thread owns, or simply be done)."""
+        while not self.sems[i].acquire(timeout=FORCE_S):
+            h = self.holder
+            if h is None or h == i or not self.alive[h]:
+                break
+            # the holder had FORCE_S to reach a scheduling point and hand
+            # over; it did not: carry on beside it
+            self.forced += 1
+            break
+        self.holder = i
+
+    # -- called from worker threads at every pydiffx statement line -------
     def point(self):
         i = self.idx.get(threading.get_ident())
         if i is None:
+            return
+        if self.holder != i:
+            # running without the baton (after a forced hand-over): step
+            # back in line
+            self._wait(i)
             return
         self.points += 1
         if self.rng.random() >= self.p:
@@ -51,15 +71,20 @@ class Sched(object):
             return
         j = self.rng.choice(others)
         self.switches += 1
+        self.holder = j
         self.sems[j].release()
-        if not self.sems[i].acquire(timeout=FORCE_S):
-            self.forced += 1
+        self._wait(i)
 
     def _finish(self, i):
         self.alive[i] = False
         others = [j for j in range(len(self.alive)) if self.alive[j]]
         if others:
-            self.sems[self.rng.choice(others)].release()
+            j = self.rng.choice(others)
+            if self.holder == i or self.holder is None:
+                self.holder = j
+            self.sems[j].release()
+        else:
+            self.holder = None
 
     def run(self, thunks, timeout=120):
         """Run the thunks as concurrent workers; returns a list of
@@ -68,6 +93,8 @@ class Sched(object):
         self.sems = [threading.Semaphore(0) for _ in range(n)]
         self.alive = [True] * n
         results = [('hung', None)] * n
+        first = self.rng.randrange(n)
+        self.holder = first
 
         def worker(i):
             self.idx[threading.get_ident()] = i
@@ -87,7 +114,7 @@ class Sched(object):
         try:
             for t in threads:
                 t.start()
-            self.sems[self.rng.randrange(n)].release()
+            self.sems[first].release()
             for t in threads:
                 t.join(timeout)
         finally:
@@ -109,7 +136,8 @@ def start():
 
     def on_line(code, line):
         fn = code.co_filename
-        if not fn.startswith(_state['root']) or '/tests/' in fn:
+        if (not fn.startswith(_state['root']) or '/tests/' in fn) and \
+                fn not in _state['extra']:
             return mon.DISABLE
         s = _state['active']
         if s is not None:
@@ -143,11 +171,17 @@ class session(object):
         return False
 
 
-def concurrently(rng, thunks, p=0.08):
+def concurrently(rng, thunks, p=0.08, extra_files=()):
     """Run the thunks under a fresh schedule (inside a session). Returns
-    (results, sched)."""
+    (results, sched). ``extra_files``: further source files whose statement
+    lines are scheduling points (the engine a pydiffx component runs on)."""
     s = Sched(rng, p)
     was_on = _state['on']
+    if tuple(extra_files) != _state['extra']:
+        if was_on:
+            stop()
+            was_on = False
+        _state['extra'] = tuple(extra_files)
     start()
     try:
         res = s.run(thunks)
